@@ -341,25 +341,44 @@ func (e *handlerStore[T]) off(handler ...T) {
 		return
 	}
 
-	remove := func(slice []T, s int) []T {
-		return append(slice[:s], slice[s+1:]...)
-	}
-
-	for i, h := range e.funcs {
-		for _, _h := range handler {
-			if h == _h {
-				e.funcs = remove(e.funcs, i)
+	// Build new slices instead of removing from the slice that is being ranged over.
+	filter := func(slice []T) []T {
+		var kept []T
+		for _, h := range slice {
+			named := false
+			for _, _h := range handler {
+				if sameHandler(h, _h) {
+					named = true
+					break
+				}
+			}
+			if !named {
+				kept = append(kept, h)
 			}
 		}
+		return kept
 	}
+	e.funcs = filter(e.funcs)
+	e.funcsOnce = filter(e.funcsOnce)
+}
 
-	for i, h := range e.funcsOnce {
-		for _, _h := range handler {
-			if h == _h {
-				e.funcsOnce = remove(e.funcsOnce, i)
-			}
-		}
+// sameHandler reports whether a and b denote the same handler. Lifecycle handlers are
+// stored as pointers to function values, and the public Off... methods can only pass
+// pointers to fresh copies, so two pointers to functions are the same handler when the
+// functions they point to are the same function (as eventHandlerStore.off does).
+func sameHandler[T comparable](a, b T) bool {
+	if a == b {
+		return true
 	}
+	va, vb := reflect.ValueOf(a), reflect.ValueOf(b)
+	if va.Kind() != reflect.Ptr || vb.Kind() != reflect.Ptr || va.IsNil() || vb.IsNil() {
+		return false
+	}
+	fa, fb := va.Elem(), vb.Elem()
+	if fa.Kind() != reflect.Func || fb.Kind() != reflect.Func || fa.IsNil() || fb.IsNil() {
+		return false
+	}
+	return fa.Pointer() == fb.Pointer()
 }
 
 func (e *handlerStore[T]) offAll() {
@@ -419,46 +438,40 @@ func (e *eventHandlerStore) off(eventName string, handler ...reflect.Value) {
 	e.mu.Lock()
 	defer e.mu.Unlock()
 
-	if handler == nil {
+	// The public OffEvent methods pass an empty, non-nil slice when no handler is given.
+	if len(handler) == 0 {
 		delete(e.events, eventName)
 		delete(e.eventsOnce, eventName)
 		return
 	}
 
-	remove := func(slice []*eventHandler, s int) []*eventHandler {
-		return append(slice[:s], slice[s+1:]...)
-	}
-
-	events, ok := e.events[eventName]
-	if ok {
-		for i, event := range events {
+	// Build new slices instead of removing from the slice that is being ranged over.
+	filter := func(slice []*eventHandler) []*eventHandler {
+		var kept []*eventHandler
+		for _, event := range slice {
+			named := false
 			for _, h := range handler {
-				ep := event.rv.Pointer()
-				hp := h.Pointer()
-				if ep == hp {
-					events = remove(events, i)
+				if event.rv.Pointer() == h.Pointer() {
+					named = true
+					break
 				}
 			}
+			if !named {
+				kept = append(kept, event)
+			}
 		}
-		if len(events) == 0 {
+		return kept
+	}
+
+	if events, ok := e.events[eventName]; ok {
+		if events = filter(events); len(events) == 0 {
 			delete(e.events, eventName)
 		} else {
 			e.events[eventName] = events
 		}
 	}
-
-	eventsOnce, ok := e.eventsOnce[eventName]
-	if ok {
-		for i, event := range eventsOnce {
-			for _, h := range handler {
-				ep := event.rv.Pointer()
-				hp := h.Pointer()
-				if ep == hp {
-					eventsOnce = remove(eventsOnce, i)
-				}
-			}
-		}
-		if len(eventsOnce) == 0 {
+	if eventsOnce, ok := e.eventsOnce[eventName]; ok {
+		if eventsOnce = filter(eventsOnce); len(eventsOnce) == 0 {
 			delete(e.eventsOnce, eventName)
 		} else {
 			e.eventsOnce[eventName] = eventsOnce
